@@ -121,9 +121,14 @@ namespace occa {
       if (arg >= 0) {
         expandArg(newTokens, source, args, arg);
       } else {
-        // __VA_ARGS__
+        // __VA_ARGS__ keeps the commas between the variable arguments
         const int realArgc = (int) args.size();
         for (int i = argc; i < realArgc; ++i) {
+          if (i > argc) {
+            newTokens.push_back(
+              new operatorToken(source->origin, op::comma)
+            );
+          }
           expandArg(newTokens, source, args, i);
         }
       }
